@@ -142,6 +142,9 @@ func (m c09) Exec(ctx *core.Ctx, cs *core.Case) {
 	}
 	s1, s2 := string(cs.Input), string(cs.Alt)
 	in1, in2 := scheme+"://"+s1+"/", scheme+"://"+s2+"/"
+	if len(s1)%3 == 0 {
+		interfere(ctx, in1) // e.g. a lax parser has seen one spelling before
+	}
 	h1, ok1, p1 := m.hostOf(ctx, in1)
 	h2, ok2, p2 := m.hostOf(ctx, in2)
 	if p1 != nil || p2 != nil {
